@@ -49,8 +49,13 @@ impl SharedSink {
     }
     /// a recording destination that already holds `data` (a file written earlier), positioned at 0
     pub fn recording_over(data: Vec<u8>) -> SharedSink {
+        Self::recording_over_at(data, 0)
+    }
+    /// ... with the cursor left at `pos` (a handle that was used to read the old file before)
+    pub fn recording_over_at(data: Vec<u8>, pos: u64) -> SharedSink {
         let s = SinkState {
             data,
+            pos,
             log: Some(vec![]),
             ..Default::default()
         };
@@ -179,8 +184,13 @@ pub fn apply_prefix(log: &[Op], k: usize, torn: Option<usize>) -> Vec<u8> {
 
 /// the first `k` operations of `log` applied to a destination that already holds `data`
 pub fn apply_prefix_over(data: Vec<u8>, log: &[Op], k: usize, torn: Option<usize>) -> Vec<u8> {
+    apply_prefix_over_at(data, 0, log, k, torn)
+}
+
+/// ... with the destination's cursor initially at `start`
+pub fn apply_prefix_over_at(data: Vec<u8>, start: usize, log: &[Op], k: usize, torn: Option<usize>) -> Vec<u8> {
     let mut data: Vec<u8> = data;
-    let mut pos: usize = 0;
+    let mut pos: usize = start;
     for (i, op) in log.iter().enumerate() {
         if i >= k {
             if i == k {
